@@ -1057,6 +1057,11 @@ class Terminal:
                 od.entries[i] = oe
         return ret
 
+    @property
+    def fmmu_in_sz(self):
+        """the number of input bytes reserved in the logical address space"""
+        return self.pdo_in_sz
+
     @asynccontextmanager
     async def map_fmmu(self, logical, write):
         """map the pdo to `logical` address.
@@ -1070,7 +1075,7 @@ class Terminal:
             start = min(2, len(self.fmmu_used))
         else:
             offset = self.pdo_in_off
-            size = self.pdo_in_sz
+            size = self.fmmu_in_sz
             start = len(self.fmmu_used)
         assert size is not None
         assert offset is not None
